@@ -98,7 +98,68 @@ func newInstance(i int) *componentstatus.InstanceID {
 	return componentstatus.NewInstanceID(component.MustNewIDWithName("comp", fmt.Sprint(i)), component.KindReceiver, pipeline.NewIDWithName(pipeline.SignalLogs, "p"))
 }
 
+// runC11Enumerate is the bounded exhaustive supplement: every report sequence of length <= 4 over the nine-letter
+// alphabet (eight statuses + ReportOKIfStarting) on one instance, each refined against the reference. The deciding
+// step stays the seeded merge search; this only makes sure no short sequence is missed by sampling.
+func runC11Enumerate(r *simkit.Run) {
+	alphabet := append(append([]st(nil), allStatuses...), st(-1)) // -1 = ReportOKIfStarting
+	n := 0
+	var rec func(prefix []st, depth int)
+	rec = func(prefix []st, depth int) {
+		if len(prefix) > 0 {
+			n++
+			inst := newInstance(0)
+			var got []st
+			rep := status.NewReporter(func(_ *componentstatus.InstanceID, ev *componentstatus.Event) { got = append(got, ev.Status()) }, func(error) {})
+			cur := sNone
+			var want []st
+			ambiguous := false
+			for _, x := range prefix {
+				before := len(got)
+				if x == st(-1) {
+					rep.ReportOKIfStarting(inst)
+					if cur == sStart {
+						want = append(want, sOK)
+						cur = sOK
+					}
+					continue
+				}
+				rep.ReportStatus(inst, componentstatus.NewEvent(x))
+				switch refTransition(cur, x) {
+				case must:
+					want = append(want, x)
+					cur = x
+				case may:
+					ambiguous = true
+					if len(got) > before {
+						want = append(want, x)
+						cur = x
+					}
+				}
+			}
+			if fmt.Sprint(got) != fmt.Sprint(want) && !r.Failed() {
+				r.Failf("fsm", "enumerated-sequence", "report sequence %v emitted %v, the documented state machine implies %v (ambiguous transitions followed: %v)", prefix, got, want, ambiguous)
+			}
+		}
+		if depth == 4 {
+			return
+		}
+		for _, a := range alphabet {
+			rec(append(prefix, a), depth+1)
+		}
+	}
+	rec(nil, 0)
+	r.CountN("probe.exhaustive_sequences_len_le_4", int64(n))
+	r.Events += n
+	r.Sample = map[string]any{"mode": "enumerate", "sequences": n}
+	r.Logf("enumerated %d sequences", n)
+}
+
 func runC11(r *simkit.Run) {
+	if r.Tape.Chance(1, 200) {
+		runC11Enumerate(r)
+		return
+	}
 	switch r.Tape.Weighted(7, 1, 2) {
 	case 0:
 		runC11Direct(r, false)
